@@ -230,10 +230,19 @@ def _xnpv(rate, values, dates):
 
 def _xirr(values, dates, guess=None):
     try:
-        return newton(lambda r: _xnpv(r, values, dates), guess, maxiter=100)
+        rate = newton(lambda r: _xnpv(r, values, dates), guess, maxiter=100)
 
     except (RuntimeError, FloatingPointError):
         raise xlerrors.NumExcelError('XIRR did not converge')
+
+    # newton() can stop at a point that is not a root, e.g. at its own second
+    # iterate when the iteration leaves the domain. Only report a rate at
+    # which the net present value actually vanishes.
+    scale = sum(abs(value) for value in values)
+    if not abs(_xnpv(rate, values, dates)) <= 1e-6 * scale:
+        raise xlerrors.NumExcelError('XIRR did not converge')
+
+    return rate
 
 
 @xl.register()
